@@ -15,7 +15,23 @@ NONTRIVIAL = {
     "C02": ["C02:multi_block_commit", "C02:round_gap_in_sequence", "C02:first_block_round_gt_1"],
     "C06": ["C06:with_crash", "C06:async_then_stable"],
     "C07": ["C07:gap_of_2plus_blocks"],
+    "C03": ["C03:second_proposal_after_vote", "C03:proposal_after_own_timeout", "C03:unsafe_extension_offered", "C03:vote_via_tc"],
+    "C05": ["C05:certified_2chain_with_gap_shown", "C05:commit_as_ancestor"],
+    "C08": ["C08:vote_with_payload", "C08:commit_with_payload"],
+    "C10": ["C10:jump_gt_1", "C10:advance_by_tc"],
 }
+
+PUPPET_DIRECTED = ["d01", "d02", "d03", "d04", "d07", "d09", "d10", "d15", "d17", "d18"]
+
+
+def puppet_mix(rand_count, directed_each, **params):
+    """Random puppet scripts plus every directed script."""
+    return [J("puppet", "rand", rand_count, per_process=10, **params)] + [J("puppet", c, directed_each, per_process=6, **params) for c in PUPPET_DIRECTED]
+
+
+def cluster_mix(each, **params):
+    return [J("cluster", c, each, per_process=6, **params) for c in ("s2", "s3", "s4")]
+
 
 C06_PARAMS = dict(timeout_ms=1000, hi_ms=50, sync_retry_ms=1000, duration_ms=250000)
 
@@ -24,8 +40,36 @@ PLANS = {
         "level": "exploration",
         "rule": "cluster runs (real nodes on the simulated network, virtual time) of classes s2 crash / s3 async-then-stable / s4 partition-heal; a run is non-trivial if some commit delivered >= 2 blocks, the delivered sequence has a round gap, or the first delivered block has round > 1; distinct = distinct fingerprints of the per-node Core event sequences",
         "assumptions": ["simulated transport preserves per-connection FIFO byte streams", "commit channel read by the harness task is the application boundary"],
-        "quick": [J("cluster", "s2", 96), J("cluster", "s3", 96), J("cluster", "s4", 96)],
-        "thorough": [J("cluster", "s2", 1500), J("cluster", "s3", 1500), J("cluster", "s4", 1500)],
+        "quick": cluster_mix(64) + puppet_mix(320, 12),
+        "thorough": cluster_mix(1500) + puppet_mix(20000, 400),
+    },
+    "C03": {
+        "level": "exploration",
+        "rule": "puppet-mode scripts (one real node, harness holds the other n-1 keys: random scripts over {extend, view change, timer expiry, equivocation, unsafe extension, withheld parent, missing payload, invalid variant, replay} and the directed catalogue d01..d18) plus cluster runs; non-trivial = the node was offered a second proposal after voting, a proposal after its own timeout, an unsafe extension, or voted through the TC branch; distinct = distinct Core-event fingerprints",
+        "assumptions": ["hook events Vote/Timeout are emitted synchronously inside Core (program order)", "cross-checked against validly signed votes on the wire and the signature-service tap"],
+        "quick": puppet_mix(640, 24) + cluster_mix(32),
+        "thorough": puppet_mix(40000, 800) + cluster_mix(1000),
+    },
+    "C05": {
+        "level": "exploration",
+        "rule": "same workloads as C03; oracle: every commit of the real node is justified by a consecutive-round pair b0<-b1 among blocks delivered to it with a valid QC for b1 among certificates delivered to / assembled by it; non-trivial = the node was shown a certified 2-chain with a round gap, or committed a block as an ancestor; distinct = distinct Core-event fingerprints",
+        "assumptions": ["puppet histories keep all certified consecutive 2-chains on one chain (generator-enforced)"],
+        "quick": puppet_mix(480, 16) + cluster_mix(48),
+        "thorough": puppet_mix(30000, 600) + cluster_mix(1200),
+    },
+    "C08": {
+        "level": "exploration",
+        "rule": "puppet scripts with payloads that are present / partially missing / arriving later / never arriving (d18, rand) plus cluster runs; oracle: at every vote for a foreign block and every commit, each payload digest has an earlier store-write event on that node's store; non-trivial = a vote or commit with non-empty payload",
+        "assumptions": ["store-write hook fires inside the store task right after db.put"],
+        "quick": [J("puppet", "d18", 160, per_process=8), J("puppet", "rand", 480, per_process=10), J("puppet", "d10", 48, per_process=8)],
+        "thorough": [J("puppet", "d18", 6000, per_process=20), J("puppet", "rand", 30000, per_process=20), J("puppet", "d10", 2000, per_process=20)],
+    },
+    "C10": {
+        "level": "exploration",
+        "rule": "same workloads as C03; oracle over Core's round-advance and timeout events against certificates delivered to / assembled by the node; non-trivial = a round jump > 1 or an advance justified by a TC only",
+        "assumptions": ["a certificate counts as held once the frame carrying it became readable by the node"],
+        "quick": puppet_mix(480, 16) + cluster_mix(48),
+        "thorough": puppet_mix(30000, 600) + cluster_mix(1200),
     },
     "C06": {
         "level": "exploration",
@@ -54,7 +98,11 @@ def nontrivial(pid, res, sits):
 
 # Coverage floors: (counter or situation, minimum) that the unchanged tree meets deterministically.
 FLOORS = {
-    "C02": {"quick": {"C02.links_ok": 1000, "sit:C02:multi_block_commit": 5}},
+    "C02": {"quick": {"C02.links_ok": 1000, "sit:C02:multi_block_commit": 5, "sit:C02:commit_with_2plus_ancestors": 3, "sit:C02:first_block_round_gt_1": 3}},
+    "C03": {"quick": {"C03.votes_checked": 2000, "sit:C03:second_proposal_after_vote": 5, "sit:C03:proposal_after_own_timeout": 5, "sit:C03:unsafe_extension_offered": 5, "sit:C03:vote_via_tc": 5}},
+    "C05": {"quick": {"C05.commits_checked": 1000, "sit:C05:certified_2chain_with_gap_shown": 5}},
+    "C08": {"quick": {"C08.votes_with_payload_checked": 100, "C08.commits_with_payload_checked": 100}},
+    "C10": {"quick": {"C10.round_advances_checked": 2000, "C10.timeouts_checked": 50, "sit:C10:jump_gt_1": 5, "sit:C10:advance_by_tc": 5}},
     "C06": {"quick": {"C06.windows_checked": 500}},
     "C07": {"quick": {"C07.recoveries_checked": 20}},
 }
